@@ -7,6 +7,7 @@ import (
 	"os"
 	"path/filepath"
 	"sort"
+	"strings"
 	"testing"
 
 	"github.com/taurusgroup/multi-party-sig/verifharness/ev"
@@ -68,6 +69,12 @@ func (p *Prop[C]) One(t ev.Fataler, c C) {
 	}
 	rec.Case(p.Kind+"|"+class, nt, sample)
 	if f != nil {
+		if strings.HasPrefix(f.Sig, "inconclusive") {
+			// watchdog-style outcomes are never violations; the driver turns them into exit status 2
+			rec.Count("inconclusive", 1)
+			rec.Note("inconclusive:"+f.Sig, f.Detail)
+			return
+		}
 		rec.Report(t, p.Kind, f.Sig, f.Detail, c)
 	}
 }
